@@ -30,6 +30,8 @@ type opCLICase struct {
 	// Defs: the input files are TTML documents carrying style and region definitions (referenced or not, with an
 	// identifier that both files define)
 	Defs bool `json:"defs,omitempty"`
+	// Extra: the command line also carries flags that belong to other sub-commands (they have no effect on this one)
+	Extra bool `json:"extra,omitempty"`
 }
 
 // ttmlWithDefs renders cues as a TTML document with two styles and a region; tag tells the two files apart.
@@ -115,6 +117,16 @@ func checkOpCLI(c opCLICase) string {
 	default:
 		return "unknown sub-command " + c.Sub
 	}
+	if c.Extra {
+		switch c.Sub {
+		case "sync":
+			args = append(args, "-f=2s", "-p=888")
+		case "fragment":
+			args = append(args, "-s=500ms", "-a1=1s", "-d1=2s")
+		default:
+			args = append(args, "-s=500ms", "-f=2s", "-p=100")
+		}
+	}
 	libOut, cliOut := filepath.Join(dir, "lib."+c.Ext), filepath.Join(dir, "cli."+c.Ext)
 	// library path
 	var libErr error
@@ -197,6 +209,7 @@ func cliCases(t *testing.T, pid, sub string) {
 		if rapid.IntRange(0, 2).Draw(rt, "defs") == 0 {
 			c.Defs, c.Ext = true, rapid.SampledFrom([]string{"ttml", "TTML", "Ttml"}).Draw(rt, "defsext")
 		}
+		c.Extra = rapid.IntRange(0, 3).Draw(rt, "extraflags") == 0
 		if sub == "fragment" || sub == "unfragment" {
 			// precondition of both operations in their properties: start-ordered lists for fragment; any for unfragment
 			sortCues(c.Cues)
